@@ -149,6 +149,14 @@ protected:
   explicit BuiltinExpression(FUNCTION fc) : oper(fc) { }
   BuiltinExpression(FUNCTION fc, std::vector<Expression*>&& args) : oper(fc), _args(std::move(args)) { }
   static void assertClosedFunction(Parser& p, Context& ctx, FUNCTION fc);
+
+  /**
+   * Hand back an argument as the result of the function: itself when it is a
+   * temporary, a copy when it belongs to a variable, a constant or a container
+   * (the result could be the receiver of an in-place method, which must not
+   * write through to the owner).
+   */
+  static Value& handback(Context& ctx, Value& val);
 };
 
 }
